@@ -294,7 +294,7 @@ fn cop_strategy() -> impl Strategy<Value = COp> {
 
 fn case_strategy() -> impl Strategy<Value = Case> {
     (
-        prop::sample::select(vec![1usize, 2, 10]),
+        prop::sample::select(vec![1usize, 2, 10, 0]),
         prop::collection::vec(0u8..16, 1..=2),
         prop::collection::vec(0u8..16, 1..=3),
         prop::collection::vec(prop::collection::vec(cop_strategy(), 1..=3), 1..=3),
@@ -315,6 +315,8 @@ fn dfs_programs(tier: Tier) -> Vec<Case> {
         c(&[1, 3], &[1], &[&[COp::Cond { pick: 2, etag: true, date: false, csv: true, pick2: Some(0) }, cond(2, true, true)]]),
     ];
     v.push(c(&[1], &[3, 7], &[&[COp::Get { csv: false }, cond(2, true, true)], &[cond(0, false, true)]]));
+    // history-size 0: the version identifier must still advance with every change
+    v.push(Case { keep: 0, ..c(&[1], &[3, 1], &[&[cond(0, true, false), cond(0, true, true)]]) });
     if tier == Tier::Thorough {
         v.push(c(&[1], &[3, 3, 1], &[&[cond(0, true, true), COp::Get { csv: true }, cond(2, false, true)]]));
     }
